@@ -145,6 +145,9 @@ type C09Case struct {
 	Company bool `json:"company,omitempty"`
 	// Rel: script paths are given relative to the working directory.
 	Rel bool `json:"rel,omitempty"`
+	// Link: the configured script paths are symbolic links ("short": the link text is shorter than the script,
+	// "long": longer) to the script files
+	Link string `json:"link,omitempty"`
 }
 
 func setPath(d map[string]any, key string, v any) {
@@ -215,6 +218,16 @@ func init() {
 						// the same slots, after a build of the same configuration with other script contents
 						for _, s := range subs[1:] {
 							if !yield(C09Case{Format: f, Subset: s, Class: class, Prime: "crlf"}) {
+								return
+							}
+						}
+					}
+					if class == "normal" || class == "nonl" {
+						for _, ln := range []string{"short", "long"} {
+							if !yield(C09Case{Format: f, Subset: full(n), Class: class, Link: ln}) {
+								return
+							}
+							if !yield(C09Case{Format: f, Subset: 1, Class: class, Link: ln}) {
 								return
 							}
 						}
@@ -344,6 +357,18 @@ func checkC09(env *engine.Env, ci any) engine.Outcome {
 	}
 	pathOf := func(class, key string) string {
 		p := scriptPath(t, class, key)
+		if c.Link != "" && class != "decoy" {
+			// <dir>/ln-<key>.sh -> the script (relative link text), or via a long absolute spelling
+			lp := filepath.Join(filepath.Dir(p), "ln-"+c.Link+"-"+filepath.Base(p))
+			target := filepath.Base(p)
+			if c.Link == "long" {
+				target = filepath.Dir(p) + strings.Repeat("/.", 120) + "/" + filepath.Base(p)
+			}
+			os.Remove(lp)
+			if err := os.Symlink(target, lp); err == nil {
+				p = lp
+			}
+		}
 		if c.Rel {
 			if r, err := filepath.Rel(t.Root, p); err == nil {
 				return r
@@ -388,7 +413,7 @@ func checkC09(env *engine.Env, ci any) engine.Outcome {
 		}
 	}
 	out.Nontrivial = len(names) > 0
-	out.Key = fmt.Sprintf("%s:%s:%s:%o:%s:%v:%v:%s", c.Format, c.Class, c.Prime, c.Umask, c.Where, c.Company, c.Rel, strings.Join(names, ","))
+	out.Key = fmt.Sprintf("%s:%s:%s:%o:%s:%v:%v:%s:%s", c.Format, c.Class, c.Prime, c.Umask, c.Where, c.Company, c.Rel, c.Link, strings.Join(names, ","))
 	if c.Rel {
 		cwd, err := os.Getwd()
 		if err == nil {
